@@ -47,31 +47,14 @@ ASSUMPTIONS = ["CPython 3.12 line attribution (a `with` block's __exit__ runs on
 MISSING = "<<missing>>"
 METHODS = ["trace", "debug", "info", "success", "warning", "error", "critical", "exception", "log"]
 
-# Genuine defects of /repo found by this check that are not (yet) listed in known_findings.json.
-# While a key is not listed there its violations are reported as PENDING-FINDING lines and do not
-# fail the run (AGENT_GUIDE: the integrator adds them to known_findings.json; then core's filter
-# takes over).  See design_notes/C17.md.
-PENDING = {
-    "C17-async-with-catch-frame":
-        "`async with logger.catch():` – the record names loguru's own Catcher.__aexit__ frame instead of the "
-        "frame containing the block (__aexit__ calls __exit__, one more frame than depth + 2 accounts for)",
-    "C17-asyncgen-anext-frame":
-        "catch()-decorated async generator driven by `async for`/anext(): the record names "
-        "collections.abc.AsyncGenerator.__anext__ instead of the frame iterating the decorated function",
-    "C17-fallback-getframe-beyond-stack":
-        "get_frame_fallback (interpreters without sys._getframe) raises AttributeError / returns None beyond the "
-        "stack instead of ValueError, so a too large depth makes the logging call fail instead of using placeholders",
-}
+# Classifier keys of the three defects this check found (known_findings.json F22/F23/F24, all FIXED in
+# /repo): a reappearance is a plain violation; the key only names it in the replay file.
+KEY_ASYNC_WITH = "C17-async-with-catch-frame"
+KEY_ASYNC_FOR = "C17-asyncgen-anext-frame"
+KEY_FALLBACK = "C17-fallback-getframe-beyond-stack"
 
 
 def report(ctx, what, replay, key=None, kind="oracle"):
-    """ctx.violation, except that pending findings (see PENDING) do not fail the run."""
-    if key in PENDING and not any(f.get("key") == key for f in ctx.findings):
-        ctx.stat("pending_finding:" + key)
-        if not any(n.startswith("PENDING-FINDING " + key) for n in ctx.notes):
-            ctx.note("PENDING-FINDING %s: %s | first witness: %s" % (key, PENDING[key], what))
-            print("KNOWN-FINDING: property=%s %s [pending:%s]" % (PROP, PENDING[key], key))
-        return False
     return ctx.violation(what, replay, key=key, kind=kind)
 
 
@@ -147,8 +130,8 @@ FILES = ["x.py", "/abs/dir/mod.py", "<string>", "", "dir/.hidden", "a.b.c.py", "
 LINK_KINDS = ["func", "func", "lambda", "method", "classmethod", "staticmethod", "callobj", "gen", "deco", "closure",
               "viamap", "viasorted", "coro", "prop", "execmod", "evalstr", "genexpr"]
 PLAIN_LEAVES = ["plain", "plain", "lambda", "exc", "method", "modlevel", "classbody", "gen", "comp", "genexpr", "evalstr"]
-CATCH_LEAVES = ["with", "with_nested", "deco_func", "deco_func_paren", "deco_gen", "deco_coro", "deco_agen"]
-FINDING_LEAVES = ["async_with", "deco_agen_for"]
+CATCH_LEAVES = ["with", "with_nested", "deco_func", "deco_func_paren", "deco_gen", "deco_coro", "deco_agen", "async_with",
+                "deco_agen_for"]
 
 
 class Mod:
@@ -339,7 +322,7 @@ class Chain:
                     "        a.asend(None).send(None)\n    except StopIteration:\n        pass\n    try:\n        a.asend(None).send(None)\n"
                     "    except (StopIteration, StopAsyncIteration):\n        pass" % (n, n))
         L["deco_agen"] = (n + "_adrv", [t(mod, n + "_adrv", l + 10)])
-        # ---- shapes on which /repo is known to name a library/stdlib frame (pending findings)
+        # ---- the shapes of the former findings F23 / F24 (async with, async for over a decorated async generator)
         l = mod.add("async def %s_aw():\n    async with CM():\n        raise ValueError('boom')\ndef %s_awd():\n    c = %s_aw()\n    try:\n"
                     "        c.send(None)\n    except StopIteration:\n        pass" % (n, n, n))
         L["async_with"] = (n + "_awd", [t(mod, n + "_awd", l + 6), t(mod, n + "_aw", l + 1)])
@@ -497,8 +480,8 @@ def run_jobs(jobs, prepare, in_thread, foreign, sink):
 # ----------------------------------------------------------------------------- one chain
 SHAPE_OF = {"with": "with", "with_nested": "with", "deco_func": "function", "deco_func_paren": "function",
             "deco_gen": "generator", "deco_coro": "coroutine", "deco_agen": "asyncgen.asend",
-            "async_with": "async with", "deco_agen_for": "asyncgen.asend"}
-FINDING_KEY = {"async_with": "C17-async-with-catch-frame", "deco_agen_for": "C17-asyncgen-anext-frame"}
+            "async_with": "async with", "deco_agen_for": "asyncgen.__anext__"}
+FINDING_KEY = {"async_with": KEY_ASYNC_WITH, "deco_agen_for": KEY_ASYNC_FOR}
 
 
 def rng_from_state(state):
@@ -527,28 +510,11 @@ def make_jobs(chain, rng, ctx, full_sweep, total_hint):
         r = rng.below(100)
         if r < 60:
             leaf = rng.choice(leaves_plain)
-        elif r < 96:
-            leaf = rng.choice(CATCH_LEAVES)
         else:
-            leaf = rng.choice(FINDING_LEAVES)
+            leaf = rng.choice(CATCH_LEAVES)
         jobs.append({"leaf": leaf, "method": rng.choice(METHODS), "via": rng.choice(VIAS), "depth": d,
                      "flags": rng.below(64), "reraise": rng.chance(15)})
     return jobs
-
-
-def anext_tag():
-    """the frame of collections.abc.AsyncGenerator.__anext__ while it awaits asend()"""
-    import collections.abc
-    fn = collections.abc.AsyncGenerator.__anext__
-    line = max(l for _, _, l in fn.__code__.co_lines() if l)
-    return (fn.__globals__.get("__name__", MISSING), fn.__code__.co_filename, fn.__code__.co_name, line)
-
-
-def lib_canon(fields, env):
-    """library frames of loguru itself are compared by (name, function) only"""
-    if fields["path"] == env.libfile:
-        return dict(fields, path="<loguru>/_logger.py", file="_logger.py", module="_logger", line=0)
-    return fields
 
 
 def run_chain(ctx, env, chain_state, nlinks, in_thread, foreign, full_sweep, lines, pending_cmp, only_job=None,
@@ -671,14 +637,10 @@ def run_chain(ctx, env, chain_state, nlinks, in_thread, foreign, full_sweep, lin
             nm = SHAPE_OF[leaf] if is_catch else job["method"]
             toks = [kind, enc(nm), str(d), str(tid), str(os.getpid()), str(to_us(rec["time"])), str(start_us)]
             Em = E if d >= len(E) else E[:d + 2]          # the model only needs the frames up to the selected one
-            if leaf == "deco_agen_for":
-                # the stdlib frame between asend() and the iterating coroutine is part of the stack loguru sees
-                Em = [anext_tag()] + E
-                Em = Em if d >= len(Em) else Em[:d + 2]
             for (gname, file, func, line) in Em:
                 toks += ["!" if gname is MISSING else "~" if gname is None else enc(gname) if isinstance(gname, str) else "~",
                          enc(file), enc(func), str(line)]
-            o = lib_canon(obs, env) if (leaf == "async_with" and d == 0 and obs["function"] == "__aexit__") else obs
+            o = obs
             impl = "ok %s s:%s i:%d s:%s s:%s s:%s i:%d i:%d i:%d i:%d" % (
                 "n" if o["name"] is None else "s:" + enc(o["name"]), enc(o["function"]), o["line"], enc(o["module"]),
                 enc(o["file"]), enc(o["path"]), rec["thread"].id, rec["process"].id, to_us(rec["time"]),
@@ -816,7 +778,7 @@ def stream_fork(ctx, env, n):
 
 def stream_fallback(ctx, env):
     """loguru's pure-Python get_frame_fallback (used when sys._getframe is missing) must agree with
-    sys._getframe inside the stack and raise ValueError beyond it (pending finding)."""
+    sys._getframe inside the stack and raise ValueError beyond it (finding F22, fixed)."""
     import loguru._get_frame as gf
     fb = getattr(gf, "get_frame_fallback", None)
     if fb is None:
@@ -844,7 +806,7 @@ def stream_fallback(ctx, env):
         ctx.case(("fallback", n), nontrivial=True)
         ctx.stat("fallback_cases")
         if not same:
-            key = "C17-fallback-getframe-beyond-stack" if a == "ValueError" else None
+            key = KEY_FALLBACK if a == "ValueError" else None
             report(ctx, "get_frame_fallback(%d) gives %r, sys._getframe(%d) gives %r" % (n, b, n, a),
                    {"stream": "fallback", "n": n, "stack": depth_here, "expected": a, "observed": b}, key=key)
     # end to end: the logger running on the fallback
@@ -873,7 +835,7 @@ def stream_fallback(ctx, env):
             report(ctx, "with get_frame_fallback a depth beyond the stack %s" % (
                 "raises %r" % (err,) if err is not None else "does not give placeholders"),
                 {"stream": "fallback-e2e", "expected": "placeholders", "observed": repr(err)},
-                key="C17-fallback-getframe-beyond-stack")
+                key=KEY_FALLBACK)
     finally:
         env.lm.get_frame = old
 
@@ -903,13 +865,16 @@ def drive_loop():
 """
 
 
-def stream_witnesses(ctx, env):
-    """the model-level witnesses of Props/C17 (async_with_witness) and the async-for shape, as literal programs"""
+def stream_witnesses(ctx, env, only=None):
+    """regression witnesses of findings F23 / F24 (Props/C17 async_with_witness, asyncgen_anext_witness) as literal
+    programs; run from corpus/C17 (entries with "stream": "witness"); a failure is a plain violation"""
     g = {"__name__": "app", "LOG": env.logger}
     exec(compile(WITNESS_SRC, "app.py", "exec"), g)
     g["DEC"] = env.logger.catch(g["agen_raw"])
-    for fn, exp, key in (("drive_block", ("app", "block", 3), "C17-async-with-catch-frame"),
-                         ("drive_loop", ("app", "loop", 15), "C17-asyncgen-anext-frame")):
+    for fn, exp, key in (("drive_block", ("app", "block", 3), KEY_ASYNC_WITH),
+                         ("drive_loop", ("app", "loop", 15), KEY_ASYNC_FOR)):
+        if only is not None and fn != only:
+            continue
         n0 = len(env.sink.records)
         g[fn]()
         recs = env.sink.records[n0:]
@@ -935,6 +900,9 @@ def run_corpus(ctx, env, lines, pending_cmp):
             continue
         c = json.load(open(os.path.join(CORPUS_DIR, nm)))
         ctx.stat("corpus")
+        if c.get("stream") == "witness":
+            stream_witnesses(ctx, env, only=c["program"])
+            continue
         run_chain(ctx, env, c["chain_state"], c.get("nlinks"), c.get("in_thread", False), c.get("foreign", False), False,
                   lines, pending_cmp, only_job=dict(c["job"]))
 
@@ -982,8 +950,8 @@ def run(ctx):
     corr = Corr(ctx)
     boost = 4 if getattr(ctx, "search_boost", False) else 1
     try:
-        stream_witnesses(ctx, env)
         run_corpus(ctx, env, corr.lines, corr.want)
+        stream_fallback(ctx, env)
         nchains = ctx.n(500, 9000) * boost
         for i in range(nchains):
             crng = ctx.rng.fork("chain%d" % i)
@@ -1008,7 +976,6 @@ def run(ctx):
         ctx.note("exhaustive: methods x derivations x leaves x {0, 1, beyond} on one chain in the main and in a worker thread")
         stream_timezone(ctx, env)
         stream_fork(ctx, env, ctx.n(3, 40))
-        stream_fallback(ctx, env)
         cmp_paths = []
         stream_paths(ctx, corr.lines, cmp_paths)
         corr.want.extend(("path", p, exp) for p, exp in cmp_paths)
@@ -1041,14 +1008,13 @@ def replay(ctx, rep):
                 except core.DriverError as e:
                     print("model:          unavailable (%s)" % str(e).splitlines()[0])
                 print("implementation:", cmp_[0][0])
-            bad = bad or bool(ctx.stats.get("pending_finding:" + str(FINDING_KEY.get(r["job"]["leaf"])), 0))
         else:
             before = len(ctx.violations)
-            {"witness": lambda: stream_witnesses(ctx, env), "timezone": lambda: stream_timezone(ctx, env), "fork": lambda: stream_fork(ctx, env, 3),
+            {"witness": lambda: stream_witnesses(ctx, env, only=r.get("program")), "timezone": lambda: stream_timezone(ctx, env), "fork": lambda: stream_fork(ctx, env, 3),
              "fallback": lambda: stream_fallback(ctx, env), "fallback-e2e": lambda: stream_fallback(ctx, env)}[r["stream"]]()
             for v in ctx.violations[before:]:
                 print(v["what"])
-            bad = len(ctx.violations) > before or any(k.startswith("pending_finding:") for k in ctx.stats)
+            bad = len(ctx.violations) > before
     finally:
         env.close()
     print("REPRODUCED" if bad else "not reproduced")
